@@ -32,4 +32,10 @@ var specs = map[string]propSpec{
 		Rule: "rapid generates a world (1-2 paths x 1-2 files, schema from the full schema model, configuration rendered from the schema, 0-2 token-level edits / prefixes / hostile insertions per file) and optionally a typing history (a generated fragment typed character by character at a random offset); every query kind runs under recover at every byte offset (files <= 320 bytes) or at thinned offsets, with and without prefill; evaluations = query calls. A case is non-trivial when at least 5 calls returned data (the schema matched the text) and the file has parse errors or is being typed; distinct = SHA-1 of the case JSON.",
 		Assumptions: commonAssumptions,
 	},
+	"C02": {
+		Test: "TestC02", Quick: 250, Thorough: 2500, Shards: 16,
+		QuickTimeout: 10 * time.Minute, ThoroughTimeout: 40 * time.Minute,
+		Rule: "rapid generates a world as for C01 with layout stress (multi-byte comments/strings/keys, CRLF, blank lines, 0-2 edits); every query runs at every offset (files <= 260 bytes, else thinned) and every hcl.Range reachable from every result (candidates incl. additional edits, hover, tokens, symbol trees, collected targets incl. nested / def / targetable-from ranges, origins, lookup results checked against the files of the reported path, links, diagnostic subject/context) is checked: file belongs to the path, 0 <= start <= end <= len, line/column recomputed independently (newline count + grapheme clusters). evaluations = ranges checked. Exempt: pass-through schema ranges; ranges inside top-level items whose parser AST already carries an inconsistent range (counted as excluded upstream-range). Non-trivial = the case produced at least one computed range (not byte-identical to an AST node or lexer token range); distinct = SHA-1 of the case JSON.",
+		Assumptions: commonAssumptions,
+	},
 }
